@@ -79,6 +79,8 @@ fn plan(prop: &str, tier: &str, scale: f64) -> Plan {
             p.w1_small /= 2;
             p.w1_large /= 2;
             p.w2_n = 0;
+            // states with generations near / beyond the end of the counter and retired slots
+            p.w3 = if thorough { vec![(1, 70_000, 0), (3, 140_000, 1), (1, 40_000, 2)] } else { vec![(1, 36_000, 0), (2, 70_000, 1)] };
         }
         "C17" => {
             // observation battery: fixed size, independent of the tier
